@@ -511,8 +511,8 @@ int main(int argc, char **argv) {
   for (int e : {8, 9})
     for (int b : {0, 3})
       for (int m = 0; m < NMASK; ++m) {
-        if (!thorough && m % 3 != 1)
-          continue;
+        if (thorough ? (m % 2 == 0) : (m % 3 != 1))
+          continue; // thorough: masks 1, 3, .., 17; quick: 1, 4, .., 16
         patterns.push_back({e, b, m});
         if (thorough)
           patterns.push_back({b, e, m});
